@@ -261,7 +261,9 @@ def run_cli(argv, cwd=None):
         if cwd:
             os.chdir(cwd)
         try:
-            return main(['gemato'] + argv)
+            st = main(['gemato'] + argv)
+            # what the process would exit with: sys.exit(None) is status 0
+            return 0 if st is None else st
         except SystemExit as e:
             return 'SystemExit:%s' % (e.code,)
         except BaseException as e:
